@@ -167,8 +167,9 @@ Real == "real"      \* os.NewSimpleOS: the process's real operating system
 None == "none"      \* no OS recorded (nil field / no context value)
 
 \* risor.WithOS option / os.WithOS(ctx, ..) / the same after the VM ran once with no OS at all (plain context):
-\* nothing of that first run may stick to the VM
-Sources == {"withos", "ctx", "ctxwarm"}
+\* nothing of that first run may stick to the VM; "withoswarm": the WithOS option after the VM ran under ANOTHER
+\* host OS with the same parent context
+Sources == {"withos", "ctx", "ctxwarm", "withoswarm"}
 CtxSources == {"ctx", "ctxwarm"}
 SpawnKinds  == {"go", "spawn"}                    \* vm.cloneCallAsync
 HClonekinds == {"clone", "cclone"}                \* host: vm.Clone() + Call(hostCtx, ..) after Run / from a host callback
@@ -187,7 +188,7 @@ VARIABLES src,       \* how the host supplied its OS
 pvars == <<src, stack, pending, observed>>
 
 HostCtx == IF src \in CtxSources THEN Host ELSE None
-BaseVM  == IF src = "withos" THEN Host ELSE None
+BaseVM  == IF src \in {"withos", "withoswarm"} THEN Host ELSE None
 Top     == stack[Len(stack)]
 Path    == [i \in 1..(Len(stack) - 1) |-> stack[i + 1].kind]
 
@@ -203,7 +204,7 @@ CanCall         == stack # <<>> /\ ~pending
 \* Run(hostCtx) on the base VM
 StartWith(s) == /\ CanStart
                 /\ src' = s
-                /\ LET bvm == IF s = "withos" THEN Host ELSE None
+                /\ LET bvm == IF s \in {"withos", "withoswarm"} THEN Host ELSE None
                        hc  == IF s \in CtxSources THEN Host ELSE None
                    IN stack' = <<[kind |-> "top", vmos |-> bvm, ctxos |-> InitContext(bvm, hc)]>>
                 /\ UNCHANGED <<pending, observed>>
